@@ -323,7 +323,7 @@ func gcPrune(L int, post int, layoutRestart bool) func(hist []Op, op Op) bool {
 func gcSpecs(prop string, tier string, reclaim bool) []*XSpec {
 	keys := []string{"a", "b"}
 	layout := perKey(keys, Op{K: "set", V: "s"}, Op{K: "del"}, Op{K: "set", V: "x300"})
-	post := []Op{{K: "restart", A: []int{0}}, {K: "restart", A: []int{1}}, {K: "restart", A: []int{2}}, {K: "restart", A: []int{3}}}
+	post := []Op{{K: "restart", A: []int{0}}, {K: "restart", A: []int{1}}, {K: "restart", A: []int{2}}, {K: "restart", A: []int{3}}, {K: "restart", A: []int{4}}}
 	al := append(append([]Op{}, layout...), post...)
 	keys3 := []string{"a", "b", "c"}
 	small := append(append(perKey(keys3, Op{K: "set", V: "s"}), Op{K: "del", Key: "a"}), post...)
@@ -351,7 +351,7 @@ func gcSpecs(prop string, tier string, reclaim bool) []*XSpec {
 
 func C03(job *Job, r *Report) {
 	r.Level = "model_checking"
-	r.Rule = "every layout history of up to L set/delete letters (1-block and 2-block values, 2 keys in one leaf, data files of 2 blocks or 4 blocks) with an optional tree-rebuilding restart, then every distinct range that the real range check resolves from any (begin,end) in [-1..head+1]^2, x merge on/off (run to completion), then up to 2 more letters from {restart keeping/dropping hash/hints/all, any layout letter, a second GC}; the read battery is compared with the reference map (GC = identity) after every step; distinct = canonical state dumps"
+	r.Rule = "every layout history of up to L set/delete letters (1-block and 2-block values, 2 keys in one leaf, data files of 2 blocks or 4 blocks) with an optional tree-rebuilding restart, then every distinct range that the real range check resolves from any (begin,end) in [-1..head+1]^2, x merge on/off (run to completion), then up to 2 more letters from {restart keeping/dropping hash/hints/all, exit without Close, any layout letter, a second GC}; the read battery is compared with the reference map (GC = identity) after every step; distinct = canonical state dumps"
 	r.Assumptions = []string{"GC passes run with no concurrent traffic here (C05 explores overlap)", "versions of deleted keys are not compared after a restart", "memfs models POSIX file semantics"}
 	for _, x := range gcSpecs("C03", job.Tier, false) {
 		if job.Part != "" && job.Part != x.Name {
